@@ -713,6 +713,7 @@ def run(tier, seed):
              [["unit", "degC"], ["powq", "2/1"]], [["unit", "%"], ["powq", "2/1"]], [["unit", "m"], ["coeff", "-3/2"]],
              [["unit", "degC"], ["mul", "dimensionless"]], [["unit", "degF"], ["div", "counts"]],
              [["unit", "degC"], ["powq", "1/1"]], [["unit", "lat"], ["powq", "2/1"], ["powf", "0.25"]],
+             [["unit", "lat"], ["coeff", "1/10"], ["powq", "2/1"], ["powf", "0.25"]],
              [["unit", "m"], ["powf", "2.5"]], [["unit", "kg"], ["powf", "-3.5"]], [["unit", "s"], ["powf", "0.1"]], [["unit", "km"], ["powf", "7.25"]],
              [["unit", "m"], ["powf", "0.3333333333333333"]], [["unit", "m"], ["powf", "1e-3"]], [["unit", "m"], ["powf", "12.0"]]]
     progs = fixed + progs
